@@ -243,7 +243,7 @@ func runC09(c *Ctx) {
 		// the created name is the output name of the processed file
 		s := newSym(L, map[string]bool{})
 		terms := s.eval(nameArg)
-		okName := len(terms) == 1 && strings.Contains(terms[0], "path/filepath.Ext(param:filename)") && strings.Contains(terms[0], `"_band"`)
+		okName := len(terms) == 1 && strings.Contains(terms[0], "path/filepath.Ext(param:filename)") && (strings.Contains(terms[0], `"_band"`) || strings.Contains(terms[0], `"%s_band%s"`))
 		c.check(okName, "C09.2", fnName(fn)+":output-name", L.pos(m.instr.Pos()), "the created file is <source>_band<ext> of the file being processed", strings.Join(terms, " | "))
 	}
 
@@ -523,6 +523,46 @@ func c09Cycle(c *Ctx) {
 				for _, t := range nilTestsOf(call) {
 					if ok, _ := allPathsReturnNonNil(t.onErr, map[*ssa.BasicBlock]bool{}); ok {
 						okErr = true
+					}
+				}
+				// the same test written on the length of the path (the search returns nil or a non-empty path)
+				if !okErr && call.Referrers() != nil {
+					for _, r := range *call.Referrers() {
+						ln, isLen := r.(*ssa.Call)
+						if !isLen || ln.Referrers() == nil {
+							continue
+						}
+						if bi, isB := ln.Common().Value.(*ssa.Builtin); !isB || bi.Name() != "len" {
+							continue
+						}
+						for _, r2 := range *ln.Referrers() {
+							bo, isBO := r2.(*ssa.BinOp)
+							if !isBO || bo.Referrers() == nil {
+								continue
+							}
+							k, isC := constInt(bo.Y)
+							if !isC || k != 0 {
+								continue
+							}
+							for _, r3 := range *bo.Referrers() {
+								iff, isIf := r3.(*ssa.If)
+								if !isIf {
+									continue
+								}
+								var nonEmpty *ssa.BasicBlock
+								switch bo.Op {
+								case token.NEQ, token.GTR:
+									nonEmpty = iff.Block().Succs[0]
+								case token.EQL:
+									nonEmpty = iff.Block().Succs[1]
+								}
+								if nonEmpty != nil {
+									if ok, _ := allPathsReturnNonNil(nonEmpty, map[*ssa.BasicBlock]bool{}); ok {
+										okErr = true
+									}
+								}
+							}
+						}
 					}
 				}
 				c.check(okErr, "C09.4", "detectCycles:cycle-becomes-error", L.pos(call.Pos()), "a cycle found by the DFS becomes a non-nil error", "non-nil edge returns &CycleError")
